@@ -5,6 +5,10 @@ import PkgsrcVerif.Props.C03
 import PkgsrcVerif.Props.C04
 import PkgsrcVerif.Props.C05
 import PkgsrcVerif.Props.C06
+import PkgsrcVerif.Props.C07
+import PkgsrcVerif.Props.C08
+import PkgsrcVerif.Props.C09
 import PkgsrcVerif.Props.C18
 import PkgsrcVerif.Props.C19
 import PkgsrcVerif.Driver.Pat
+import PkgsrcVerif.Driver.Sum
